@@ -4,6 +4,9 @@
 // call histories ending in destroy with faults injected into the later calls.
 #include "common/faultengine.hpp"
 
+#include <reproc/drain.h>
+#include <reproc/run.h>
+
 using namespace fw;
 
 namespace {
@@ -61,8 +64,127 @@ CaseResult judge(const fe::Obs &o, const fe::RunConfig &cfg, const std::string &
   return res;
 }
 
+// The one-call API: reproc_run / reproc_run_ex create, start, drain, wait, stop and destroy inside one call. Options
+// valid and invalid, a program that is there or not, output beyond a pipe's capacity, and up to two failures injected
+// into the parent's libc calls by ordinal; whatever the call returns, afterwards the descriptor table is the one from
+// before, every block the library allocated is released, nothing foreign was closed, and a call that returned an exit
+// status left no child behind.
+struct ApiFault { int fn, err; const char *name; };
+const ApiFault kApiFaults[] = {
+  { VS_MALLOC, ENOMEM, "malloc" },   { VS_CALLOC, ENOMEM, "calloc" },     { VS_REALLOC, ENOMEM, "realloc" }, { VS_STRDUP, ENOMEM, "strdup" },
+  { VS_PIPE, EMFILE, "pipe" },       { VS_FCNTL, EINVAL, "fcntl" },       { VS_FORK, EAGAIN, "fork" },       { VS_READ, EINTR, "read:EINTR" },
+  { VS_READ, EIO, "read:EIO" },      { VS_POLL, EINTR, "poll:EINTR" },    { VS_POLL, ENOMEM, "poll:ENOMEM" }, { VS_WAITPID, EINTR, "waitpid" },
+  { VS_CLOSE, EINTR, "close:EINTR" }, { VS_CLOSE, EIO, "close:EIO" },     { VS_OPEN, EMFILE, "open" },       { VS_SIGMASK, EINVAL, "sigmask" },
+  { VS_KILL, EPERM, "kill" },        { VS_SIGACTION, EFAULT, "sigaction" }, { VS_GETCWD, EACCES, "getcwd" },
+};
+
+int counting_sink(REPROC_STREAM, const uint8_t *, size_t size, void *context)
+{
+  *(uint64_t *) context += size;
+  return 0;
+}
+
+CaseResult run_api(Tape &t)
+{
+  CaseResult res;
+  vs_init();
+  vs_reset();
+  hz::Puppet pup(fw::case_dir() + "/ctl");
+  uint64_t out_n = (uint64_t[]){ 0, 1, 5000, 70000, 200000 }[t.pick(5)];
+  uint64_t err_n = (uint64_t[]){ 0, 1, 5000, 70000 }[t.pick(4)];
+  int code = (int) t.pick(256);
+  // 0 fine, 1 missing program, 2 fork option, 3 contradicting redirect options, 4 deadline expires, 5 missing working directory,
+  // 6 stdout to a path, 7 an action that does not exist in the stop policy
+  int shape = (int) t.weighted({ 8, 2, 2, 2, 1, 1, 1, 1 });
+  int api = (int) t.weighted({ 3, 2, 2, 2 });  // 0 run_ex with counting sinks, 1 run_ex with string sinks, 2 run_ex with null sinks, 3 reproc_run
+  bool err_piped = t.coin();
+  int nfaults = (int) t.weighted({ 3, 5, 2 });
+  std::string a2 = std::to_string(out_n), a3 = std::to_string(err_n), a6 = std::to_string(code), a7 = shape == 4 ? "3000" : "0";
+  std::string prog = shape == 1 ? fw::case_dir() + "/no-such-program" : pup.exe();
+  const char *argv[] = { prog.c_str(), "--auto", a2.c_str(), a3.c_str(), "4096", "0", a6.c_str(), a7.c_str(), nullptr };
+  reproc_options opt;
+  memset(&opt, 0, sizeof(opt));
+  opt.redirect.in.type = REPROC_REDIRECT_DISCARD;
+  if (err_piped) opt.redirect.err.type = REPROC_REDIRECT_PIPE;
+  opt.stop = { { REPROC_STOP_WAIT, 300 }, { REPROC_STOP_KILL, 3000 }, { REPROC_STOP_NOOP, 0 } };
+  std::string wd = fw::case_dir() + "/no-such-directory", outpath = fw::case_dir() + "/run-out";
+  switch (shape) {
+    case 2: opt.fork = true; break;
+    case 3:
+      if (t.coin()) {
+        memset(&opt.redirect, 0, sizeof(opt.redirect));
+        opt.redirect.discard = true;
+        opt.redirect.parent = true;
+      } else opt.redirect.out.handle = 1;  // a handle next to the default type of another kind is fine or not: the library decides, nothing may leak
+      break;
+    case 4: opt.deadline = 100; break;
+    case 5: opt.working_directory = wd.c_str(); break;
+    case 6: opt.redirect.out.path = outpath.c_str(); break;
+    case 7: opt.stop.first.action = (REPROC_STOP) 9; break;
+    default: break;
+  }
+  if (api == 3 && shape != 3 && shape != 6) {
+    memset(&opt.redirect, 0, sizeof(opt.redirect));
+    opt.redirect.discard = true;  // keeps the child's output off the worker's log
+  }
+  std::vector<std::string> jf;
+  for (int i = 0; i < nfaults; i++) {
+    const ApiFault &f = kApiFaults[t.pick(sizeof(kApiFaults) / sizeof(kApiFaults[0]))];
+    int nth = (int) t.range(0, f.fn == VS_CLOSE || f.fn == VS_FCNTL || f.fn == VS_MALLOC || f.fn == VS_CALLOC ? 12 : 4);
+    struct vs_fault vf;
+    memset(&vf, 0, sizeof(vf));
+    vf.side = VS_PARENT;
+    vf.index = -1 - nth;
+    vf.fn = f.fn;
+    vf.kind = VS_FK_ERRNO;
+    vf.err = f.err;
+    vs_add_fault(vf);
+    jf.push_back(J().kv("call", f.name).kv("nth", nth).str());
+    res.cls(std::string("run-api-fault:") + f.name);
+  }
+  static const char *an[] = { "reproc_run_ex, counting sinks", "reproc_run_ex, string sinks", "reproc_run_ex, null sinks", "reproc_run" };
+  static const char *sn[] = { "fine", "missing program", "fork option", "contradicting redirect options", "deadline expires", "missing working directory", "stdout to a path", "stop action out of range" };
+  res.describe = J().kv("scenario", "the one-call API").kv("api", an[api]).kv("shape", sn[shape]).kv("stdout_bytes", (unsigned long long) out_n).kv("stderr_bytes", (unsigned long long) err_n).kv("stderr_piped", err_piped).kv("exit_code", code).raw("faults", jarr(jf)).str();
+  res.cls("run-api");
+  res.cls(std::string("run-api:") + sn[shape]);
+  res.hash = mix(mix(0x5a11, out_n * 8 + err_n), (uint64_t) code | (uint64_t) shape << 8 | (uint64_t) api << 12 | (uint64_t) err_piped << 15);
+  for (auto &f : jf) res.hash = mix(res.hash, std::hash<std::string>()(f));
+  res.nontrivial = shape != 0 || nfaults > 0 || out_n + err_n > 65536;
+
+  auto fds0 = hz::snapshot_self_fds();
+  uint64_t got_out = 0, got_err = 0;
+  char *sout = nullptr, *serr = nullptr;
+  int r;
+  switch (api) {
+    case 0: r = reproc_run_ex(argv, opt, (reproc_sink){ counting_sink, &got_out }, (reproc_sink){ counting_sink, &got_err }); break;
+    case 1: r = reproc_run_ex(argv, opt, reproc_sink_string(&sout), reproc_sink_string(&serr)); break;
+    case 2: r = reproc_run_ex(argv, opt, REPROC_SINK_NULL, REPROC_SINK_NULL); break;
+    default: r = reproc_run(argv, opt); break;
+  }
+  int fired = 0;
+  for (unsigned i = 0; i < vs_sh->nfaults; i++) fired += vs_sh->faults[i].fired;
+  vs_clear_faults();
+  // what a string sink handed out belongs to the caller
+  if (sout) reproc_free(sout);
+  if (serr) reproc_free(serr);
+  if (fired) res.cls("run-api:fault-fired");
+  if (r < 0) res.cls("run-api:failed");
+  std::string ctx = std::string(an[api]) + " (" + sn[shape] + ", injected " + jarr(jf) + ", returned " + std::to_string(r) + "): ";
+  pid_t live[4];
+  int nl = vs_live_children(live, 4);
+  if (nl != 0 && r >= 0) res.fail("child-after-run", ctx + "returned an exit status but left child " + std::to_string(live[0]) + " unreaped");
+  std::string lsig, lp = hz::ledger_problems(fds0, lsig);
+  if (!lp.empty() && res.kind == CaseResult::PASS) res.fail(lsig, ctx + lp);
+  for (int i = 0; i < nl && i < 4; i++) {
+    kill(live[i], SIGKILL);
+    hz::reap_quietly(live[i]);
+  }
+  return res;
+}
+
 CaseResult run_case(Tape &t, long sweep)
 {
+  if (sweep < 0 && t.chance(1, 8)) return run_api(t);
   fe::RunConfig cfg;
   std::string kind;
   fe::SweepTable &tb = fe::table();
